@@ -27,9 +27,10 @@ func ZZ_C02_confirm() {
 
 // ZZ_C02_inactive: payload.InactiveArbitrators.
 func ZZ_C02_inactive() {
-	// Bound: 20 input bytes; sponsor length field <= 1.
-	data := nd.Bytes("input", 20)
-	nd.Assume(data[0] <= 1)
+	// Bound: 15 input bytes; empty sponsor (fixes the layout: 4 bytes of
+	// height, then the count field and up to 9 bytes of count + keys).
+	data := nd.Bytes("input", 15)
+	nd.Assume(data[0] == 0)
 	r := bytes.NewReader(data)
 	nd.AllocLimit(zzC02Limit)
 	var p InactiveArbitrators
